@@ -321,5 +321,7 @@ if __name__ == "__main__":
         print("INFRA: sys.exit(%s) escaped from the implementation" % e.code); traceback.print_exc(); rc = 2
     except Exception:
         traceback.print_exc(); rc = 2
+    finally:
+        common.kill_drivers()
     sys.stdout.flush()
     sys.exit(rc)
